@@ -171,6 +171,25 @@ CopyRef(t, s, d) ==
     ELSE LET o == OpenForWrite(t, d) IN
          IF o.e # "ok" THEN R(o.e, t, NoVal)
          ELSE R("ok", Put(t, o.p, File(t[ws.p].c)), NoVal)
+\* write-like operations under a file-size limit of LimBytes (RLIMIT_FSIZE, SIGXFSZ ignored): the kernel
+\* answers the payload write SHORT and refuses the rest (EFBIG).  o.f = <<>>: fs::write; else OpenOptions
+\* flags + write_all.  If everything fits it is the plain operation; if not, the call must fail and what
+\* is on disk is the plain operation's result for some PREFIX of the payload - never Ok with a part.
+LimBytes == 3
+Plain(t, p, c, f) == IF f = <<>> THEN WriteRef(t, p, c) ELSE OOpenRef(t, p, c, f)
+PayloadPrefix(c, j) == Small(SubSeq(c.b, 1, j))
+\* the limit is about where the write ENDS (append: at the old end + payload; else at the payload's length)
+WriteEnd(t, p, c, f) == LET o == OpenForWrite(t, p) IN (IF f # <<>> /\ f[3] THEN o.old.n ELSE 0) + c.n
+TooLong(t, p, c, f) == Plain(t, p, c, f).e = "ok" /\ c.n > 0 /\ WriteEnd(t, p, c, f) > LimBytes
+WriteLimRef(t, p, c, f) ==
+    IF ~TooLong(t, p, c, f) THEN Plain(t, p, c, f)
+    ELSE LET o == OpenForWrite(t, p)
+             fit == IF f # <<>> /\ f[3] THEN (IF o.old.n >= LimBytes THEN 0 ELSE LimBytes - o.old.n)   \* append
+                    ELSE IF LimBytes < c.n THEN LimBytes ELSE c.n
+         IN R("EFBIG", Plain(t, p, PayloadPrefix(c, fit), f).t, NoVal)
+WriteLimAccept(t, p, c, f, res, t2) ==
+    res.class = "err" /\ \E j \in 0..c.n : t2 = Plain(t, p, PayloadPrefix(c, j), f).t
+
 \* copy under a file-size limit of L bytes (RLIMIT_FSIZE): the kernel cuts the first copy_file_range
 \* call short at L, so File::copy's loop really iterates; the second call is refused (EFBIG).
 \* What must be there afterwards: exactly the first L bytes of the source (nothing of it twice or
@@ -288,6 +307,7 @@ Ref(t, o) ==
       [] o.op = "read"           -> ReadRef(t, o.p)
       [] o.op = "copy"           -> CopyRef(t, o.p, o.q)
       [] o.op = "copy_lim"       -> CopyLimRef(t, o.p, o.q, o.c.n)
+      [] o.op = "write_lim"      -> WriteLimRef(t, o.p, o.c, o.f)
       \* File::copy on an OPEN handle of which o.c.n bytes were read before: the post-condition is about
       \* the whole file, whatever the handle's position
       [] o.op = "fcopy"          -> CopyRef(t, o.p, o.q)
@@ -353,6 +373,8 @@ Accept(t, o, res, t2) ==
               \/ res.class = "err" /\ ErrTreeOk(t, o, t2)
     ELSE IF o.op = "exists" /\ ref.e \notin {"ok"}
          THEN t2 = t /\ (res.class = "err" \/ res.v = FALSE)
+    ELSE IF o.op = "write_lim" /\ TooLong(t, o.p, o.c, o.f)
+         THEN WriteLimAccept(t, o.p, o.c, o.f, res, t2)
     ELSE IF o.op = "fcopy_x"        \* a refusal (EXDEV) is fine; Ok => the destination holds the WHOLE source
          THEN t2 = t /\ (res.class = "ok" => (ref.e = "ok" /\ res.v = ref.v))
     ELSE IF o.op = "copy_lim" /\ ref.e = "EFBIG"
